@@ -181,3 +181,32 @@ func VH_C03_hostname_payload() {
 	}
 	verifReach("C03.hostname.both-forwarded", n == 2)
 }
+
+// UDP to an IPv6 literal, every 16-byte value: an association is created and the datagram sent
+// exactly when the address is not in a refused class, and it is sent to that very address
+func VH_C05_udp_v6() {
+	verifResetNet()
+	cl, specs, _ := verifMakeList(1, 1, false)
+	key := verifKey(specs[0].cipher, verifSecrets[specs[0].secret])
+	um := &verifUDPMetrics{}
+	h := NewPacketHandler(defaultNatTimeout, cl, um, nil)
+	client := &verifPacketConn{name: "client"}
+	first := verifU8("first")
+	low := verifBytes("low", 15)
+	ip := append([]byte{first}, low...)
+	pt := append(append([]byte{4}, ip...), 1, 187, 'q')
+	client.reads = []verifRead{{data: verifPack(key, pt), addr: verifClientAddrs[0]}}
+	h.Handle(client)
+	verifQuiesce()
+	refused := verifMustReject(net.IP(ip))
+	sent := len(verifTargets) == 1 && len(verifTargets[0].writes) == 1
+	verifAssert("C05.udp-v6.nothing-to-a-refused-address|C04.udp-v6.no-association-for-a-refused-address", verifImplies(refused, len(verifTargets) == 0 && len(um.entries) == 0))
+	verifAssert("C05.udp-v6.other-addresses-are-served|C04.udp-v6.association-for-an-allowed-address", verifImplies(!refused, sent && len(um.entries) == 1))
+	if sent {
+		ua, isUDP := verifTargets[0].writes[0].addr.(*net.UDPAddr)
+		verifAssert("C05.udp-v6.sent-to-the-checked-address|C03.udp-v6.destination", isUDP && ua.Port == 443 && verifBytesEq(ua.IP.To16(), ip))
+		verifAssert("C03.udp-v6.payload-intact", string(verifTargets[0].writes[0].data) == "q")
+		verifReach("C05.udp-v6.sent", true)
+	}
+	verifReach("C05.udp-v6.refused", refused)
+}
